@@ -99,6 +99,28 @@ def gen_scopes_unit(rng):
     return {"args": args, "A": recs(rng.choice((2, 4, 8))), "B": recs(rng.choice((2, 4, 8))), "headers": False, "funcs": ["set", "define"], "singles": True}
 
 
+def gen_sparse_macro_unit(rng):
+    """A macro (and a variable reference, a selected name) that yields nothing for hundreds of records and a value for the few
+    behind them: what the early records did not have is nothing to the later ones."""
+    n = rng.choice((258, 300, 520, 1100))
+    def rec(i, full):
+        r = {"id": i, "tags": [rng.choice(("a", "b"))] * rng.choice((0, 1, 2))}
+        if full:
+            r["nick"] = "n%d" % i
+            r["arr"] = [1, 2, i]
+        return jm.dumps(r)
+    A = [rec(i, rng.random() < 0.003) for i in range(n)]
+    B = [rec(n + i, rng.random() < 0.8) for i in range(rng.choice((2, 3, 6)))]
+    sels = rng.sample(["--select=@nick=n", "--select=(@ \"nick\")=m", "--select=(define \"d\" .nick @d)=d", "--select=(map .arr @twice)=t", "--select=(size @nick)=z",
+                       "--select=(default @nick \"none\")=dn", "--select=(set \"v\" .nick :v)=v", "--select=(first (map .arr @nick))=fm", "--select=@undefined=u"], rng.choice((1, 2, 3)))
+    args = ["--set", "@nick=.nick", "--set", "@twice=(* . 2)"] + sels + ["--select=.id=id"]
+    if rng.random() < 0.3:
+        args = ["--filter=(or (number? @nick) (< .id 100000))"] + args
+    if rng.random() < 0.3:
+        args = ["--split-by=(push [] .)"] + args
+    return {"args": args, "A": A, "B": B, "headers": False, "funcs": ["@", "define", "set"]}
+
+
 def gen_exec_unit(rng):
     """A program that could not be started for one record (a NUL in its argument, an argument too long for the kernel) is
     started for the next one like any other."""
@@ -120,6 +142,8 @@ def gen_unit(rng):
         return gen_churn_unit(rng)
     if rng.random() < 0.03:
         return gen_scopes_unit(rng)
+    if rng.random() < 0.006:
+        return gen_sparse_macro_unit(rng)
     g = eg.Gen(rng, ill_typed=0.08, maxdepth=3)
     sc = eg.Scope()
     args = []
